@@ -56,8 +56,8 @@ def install_f(c):
 
 def _cases(tier):
     if tier == 'quick':
-        out = [{'d': 256, 'L': L, 'klen': k, 'n': n} for L in (64, 0, 1) for k in (0, 5) for n in (0, 1, 385, 513)]
-        out += [{'d': 13, 'L': L, 'klen': 0, 'n': 1} for L in (64, 0)] + [{'d': 256, 'L': 64, 'klen': 0, 'n': 2049}]
+        out = [{'d': 256, 'L': L, 'klen': k, 'n': n} for L in (64, 0, 1) for k in (0, 5) for n in (0, 1, 385, 512, 513)]
+        out += [{'d': 13, 'L': L, 'klen': 0, 'n': 1} for L in (64, 0)] + [{'d': 256, 'L': 64, 'klen': 0, 'n': n} for n in (2048, 2049)]
         return out
     out = []
     for d in (1, 8, 13, 160, 224, 256, 384, 512):
